@@ -653,11 +653,17 @@ impl VariableSet {
     /// - `PPID`
     /// - `PWD`
     ///
+    /// `IFS` and `OPTIND` are always assigned. The values of `PS1`, `PS2` and
+    /// `PS4` above are defaults: a variable that already has a value (typically
+    /// imported from the environment) is left intact.
+    ///
     /// This function ignores any assignment errors.
     pub fn init(&mut self) {
         const VARIABLES: &[(&str, &str)] = &[
             (IFS, IFS_INITIAL_VALUE),
             (OPTIND, OPTIND_INITIAL_VALUE),
+        ];
+        const DEFAULTS: &[(&str, &str)] = &[
             (PS1, PS1_INITIAL_VALUE_NON_ROOT),
             (PS2, PS2_INITIAL_VALUE),
             (PS4, PS4_INITIAL_VALUE),
@@ -666,6 +672,13 @@ impl VariableSet {
             self.get_or_new(name, Scope::Global)
                 .assign(value, None)
                 .ok();
+        }
+        for &(name, value) in DEFAULTS {
+            if self.get(name).is_none_or(|var| var.value.is_none()) {
+                self.get_or_new(name, Scope::Global)
+                    .assign(value, None)
+                    .ok();
+            }
         }
 
         self.get_or_new(LINENO, Scope::Global)
